@@ -756,7 +756,15 @@ pub fn sample_match(re: &Re, src: &mut Src, out: &mut String) {
 /// sample, or an unrelated string
 pub fn gen_subject(re: &Re, src: &mut Src) -> String {
     let mut s = String::new();
-    let mode = src.weighted(&[30, 15, 15, 15, 10, 15]);
+    let mode = src.weighted(&[30, 15, 15, 15, 10, 15, 6]);
+    if mode == 6 {
+        // the subject spells the pattern (a name like `c++` or `[draft]` filtered with its own text): a regular
+        // expression does not in general match its own text
+        let own = render(re);
+        if !own.contains('\\') && own.chars().all(|c| alphabet().iter().any(|(a, _)| *a == c)) {
+            return own;
+        }
+    }
     if mode != 5 {
         sample_match(re, src, &mut s);
     }
